@@ -284,11 +284,27 @@ type checker struct {
 	bmu    sync.RWMutex
 }
 
-func (ck *checker) blame(h []step) string {
+// failure classes for the attribution of a failing program to one of its calls
+func failClass(what string) string {
+	switch what {
+	case "value", "panic", "operand_modified", "gradient_helper":
+		return "value"
+	}
+	return "deriv"
+}
+
+// blame names the call a failure is attributed to: the first call of the program
+// whose operation already fails ALONE (single-call program) for the same scalar
+// type and method family, with a value failure (explains everything downstream)
+// or, for derivative failures, a derivative failure; otherwise the last call.
+func (ck *checker) blame(h []step, in inst, what string) string {
 	ck.bmu.RLock()
 	defer ck.bmu.RUnlock()
 	for _, s := range h {
-		if ck.blamed[s.Op] {
+		if ck.blamed[s.Op+"|"+in.Type+"|"+in.Mode+"|value"] {
+			return s.Op
+		}
+		if failClass(what) == "deriv" && ck.blamed[s.Op+"|"+in.Type+"|"+in.Mode+"|deriv"] {
 			return s.Op
 		}
 	}
@@ -296,14 +312,14 @@ func (ck *checker) blame(h []step) string {
 }
 
 func (ck *checker) report(p *pcase, in inst, what string, detail vh.M) {
-	op := ck.blame(p.c.Hist)
+	op := ck.blame(p.c.Hist, in, what)
 	if what == "known_deviation_nosqrt" {
 		op = "Mnorm"
 	}
 	sig := vh.M{"engine": "scalar", "op": op, "what": what, "type": in.Type, "mode": in.Mode}
 	if len(p.c.Hist) == 1 && what != "known_deviation_nosqrt" {
 		ck.bmu.Lock()
-		ck.blamed[p.c.Hist[0].Op] = true
+		ck.blamed[p.c.Hist[0].Op+"|"+in.Type+"|"+in.Mode+"|"+failClass(what)] = true
 		ck.bmu.Unlock()
 	}
 	key := fmt.Sprint(op, what, in.Type, in.Mode)
